@@ -74,8 +74,8 @@ def _point(draw):
 
 
 @st.composite
-def _case(draw, nmax=25):
-    fmt = draw(st.sampled_from(["kida", "umist", "leeds", "uclchem", "naunet"]))
+def _case(draw, nmax=25, fmt=None):
+    fmt = fmt or draw(st.sampled_from(["kida", "umist", "leeds", "uclchem", "naunet"]))
     n = draw(st.integers(1, nmax))
     lrs = []
     refused = draw(st.integers(0, 15)) == 0 and fmt == "kida"
